@@ -64,7 +64,9 @@ func (c *RawClient) doTCPOp(op *Op) bool {
 				w.Net.SetName(akey(conn.laddr.IP, conn.laddr.Port), fmt.Sprintf("%s-d%d", c.Spec.ID, dc.Idx))
 				conn.OnData = func(_ *TCPConn, b []byte) { c.onDataConn(dc, b) }
 				conn.OnEOF = func(_ *TCPConn, rst bool) { dc.Closed = true }
-				w.Mon.RegisterIntent(akey(conn.laddr.IP, conn.laddr.Port), raw, &Intent{Client: c.Spec.ID, OpID: op.ID, Kind: "connbind", Cred: mode})
+				if !w.K.Free {
+					w.Mon.RegisterIntent(akey(conn.laddr.IP, conn.laddr.Port), raw, &Intent{Client: c.Spec.ID, OpID: op.ID, Kind: "connbind", Cred: mode})
+				}
 				_, _ = conn.Write(raw)
 			})
 	case "data_send":
@@ -95,6 +97,8 @@ func (c *RawClient) doTCPOp(op *Op) bool {
 }
 
 func (c *RawClient) onDataConn(dc *dataConn, b []byte) {
+	c.mu.Lock()
+	defer c.mu.Unlock()
 	if dc.Bound {
 		dc.Recv = append(dc.Recv, b...)
 		return
